@@ -176,11 +176,31 @@ func (p *party) SetShareData(shareData []byte) error {
 	if err != nil {
 		return fmt.Errorf("failed deserializing shares: %w", err)
 	}
+	if err := validateShareData(&localSaveData); err != nil {
+		return err
+	}
 	localSaveData.EDDSAPub.SetCurve(tss.Edwards())
 	for _, xj := range localSaveData.BigXj {
 		xj.SetCurve(tss.Edwards())
 	}
 	p.shareData = &localSaveData
+	return nil
+}
+
+// validateShareData ensures the shares are complete, as the signing protocol takes that for granted
+func validateShareData(d *keygen.LocalPartySaveData) error {
+	if d.Xi == nil || d.ShareID == nil || d.EDDSAPub == nil {
+		return fmt.Errorf("shares are incomplete")
+	}
+	n := len(d.Ks)
+	if n == 0 || len(d.BigXj) != n {
+		return fmt.Errorf("shares are incomplete")
+	}
+	for j := 0; j < n; j++ {
+		if d.Ks[j] == nil || d.BigXj[j] == nil {
+			return fmt.Errorf("shares lack the data of party %d", j)
+		}
+	}
 	return nil
 }
 
